@@ -5,13 +5,82 @@ Also the table `emQueueBound` (the bound of the real queue, read inside `handle_
 
 Observation: did every `fire` and the exit of `handle_events` return (watchdog), which events the handlers saw, in
 which order, the pending failure and whether it carries the original text.
+
+TIME SCALING (round 5): the outcome of a run must not depend on a wall-clock limit, and a quick check cannot wait for one.  For
+the duration of every case the module globals `threading` and `Queue` of lemoncheesecake.events are replaced by shims
+(`scaled_time`) whose `Thread.join(timeout=t)`, `Event.wait(t)`, `Condition.wait(t)`, `Queue.get/put(timeout=t)` wait t / 1000
+instead (no timeout = wait forever, as before) and which record the timeouts they were given and the threads that were
+created.  A handler may be BLOCKED on a harness gate (`case["block"]`) from the moment it is called until the exit of
+`handle_events` has been attempted for BLOCK_SECONDS (or has returned): an exit that gives up waiting returns early, and
+what it leaves behind is observed at that moment (`obs["at_close"]`).  Tables `emJoinLimit` (the timeout of the join of the
+handler thread and the number of timed queue operations, read under the shim).
 """
+import queue as _queue
 import threading
 import time
+from contextlib import contextmanager
 
 import common as C
 
 BOOM = "backend boom é #%d"
+TIME_SCALE = 1000.0
+BLOCK_SECONDS = 0.15
+
+
+def _scale(t):
+    return None if t is None else max(0.0, t / TIME_SCALE)
+
+
+@contextmanager
+def scaled_time():
+    """replaces the `threading` / `Queue` globals of lemoncheesecake.events; yields the log
+    {"joins": [timeout…], "waits": [...], "queue_timeouts": [...], "threads": [Thread…]}"""
+    from lemoncheesecake import events as E
+    log = {"joins": [], "waits": [], "queue_timeouts": [], "threads": []}
+
+    class Thread(threading.Thread):
+        def __init__(self, *a, **k):
+            threading.Thread.__init__(self, *a, **k)
+            # (the inherited flag says nothing: the harness runs the case on a daemon thread) — what the code ASKED for
+            self.daemon_requested = k.get("daemon")
+            log["threads"].append(self)
+
+        def join(self, timeout=None):
+            log["joins"].append(timeout)
+            return threading.Thread.join(self, _scale(timeout))
+
+    class Event(threading.Event):
+        def wait(self, timeout=None):
+            log["waits"].append(timeout)
+            return threading.Event.wait(self, _scale(timeout))
+
+    class Condition(threading.Condition):
+        def wait(self, timeout=None):
+            log["waits"].append(timeout)
+            return threading.Condition.wait(self, _scale(timeout))
+
+    class Queue(_queue.Queue):
+        def get(self, block=True, timeout=None):
+            if timeout is not None:
+                log["queue_timeouts"].append(timeout)
+            return _queue.Queue.get(self, block, _scale(timeout))
+
+        def put(self, item, block=True, timeout=None):
+            if timeout is not None:
+                log["queue_timeouts"].append(timeout)
+            return _queue.Queue.put(self, item, block, _scale(timeout))
+
+    class Shim:
+        def __getattr__(self, name):
+            return getattr(threading, name)
+    shim = Shim()
+    shim.Thread, shim.Event, shim.Condition = Thread, Event, Condition
+    saved = (E.threading, E.Queue)
+    E.threading, E.Queue = shim, Queue
+    try:
+        yield log
+    finally:
+        E.threading, E.Queue = saved
 
 
 def _real_queue_maxsize():
@@ -26,19 +95,45 @@ def em_table():
     return C.Table("emQueueBound", "List (String × Nat)", [('"queue_maxsize"', str(m), {"queue_maxsize": m})])
 
 
+def _ms(t):
+    return 0 if t is None else max(1, int(t * 1000))
+
+
+def em_join_table():
+    """the wall-clock limits of the real `handle_events`, read under the time shim on a run of three events: the timeout given to
+    the join of the handler thread (0 = none: `thread.join()`) and the number of queue operations with a timeout"""
+    from lemoncheesecake import events as E
+    with scaled_time() as log:
+        em = E.AsyncEventManager.load()
+        em.subscribe_to_event(E.TestSessionSetupStartEvent, lambda event: None)
+        with em.handle_events():
+            for _ in range(3):
+                em.fire(E.TestSessionSetupStartEvent())
+    j = max([_ms(t) for t in log["joins"]] or [0])
+    rows = [('"join_timeout_ms"', str(j), {"join_timeouts": [repr(t) for t in log["joins"]]}),
+            ('"timed_queue_operations"', str(len(log["queue_timeouts"])), {"queue_timeouts": [repr(t) for t in log["queue_timeouts"]]}),
+            ('"handler_thread_joined"', str(0 if log["joins"] else 1), {"joins": len(log["joins"])})]
+    return C.Table("emJoinLimit", "List (String × Nat)", rows)
+
+
 class EMStream(C.Stream):
     name = "em"
     driver = "drivers/EM.lean"
     quick_cases = 60
     thorough_cases = 600
-    quick_seconds = 12
+    quick_seconds = 15
     thorough_seconds = 120
     chunk = 20
     # a long tail of events after the failure (nobody consumes them any more), from several producers
     corpus = [{"n": 2600, "fails": [3], "producers": 2, "sched": []},
               {"n": 1200, "fails": [0, 700], "producers": 3, "sched": []},
-              {"n": 40, "fails": [], "producers": 1, "sched": [1] * 40}]
+              {"n": 40, "fails": [], "producers": 1, "sched": [1] * 40},
+              # a handler blocked while the exit of handle_events is attempted; a later handler raises / nothing raises
+              {"n": 6, "fails": [4], "producers": 1, "sched": [], "block": {"at": 1}},
+              {"n": 3, "fails": [], "producers": 1, "sched": [], "block": {"at": 0}},
+              {"n": 300, "fails": [299], "producers": 2, "sched": [1] * 10, "block": {"at": 10}}]
     watchdog = 5.0
+    p_block = 0.35
 
     def gen(self, rng, i):
         n = rng.choice([0, 1, 2, 5, 17, 40, 120, 400, 1500, 3000])
@@ -48,20 +143,38 @@ class EMStream(C.Stream):
             fails[0] = rng.randrange(min(n, 8))     # an early failure: many events after it
             fails = sorted(set(fails))
         sched = [rng.choice([0, 0, 1, 2]) for _ in range(min(n, 64))]     # model-side interleaving of the handler thread
-        return {"n": n, "fails": fails, "producers": rng.choice([1, 1, 2, 3]), "sched": sched}
+        case = {"n": n, "fails": fails, "producers": rng.choice([1, 1, 2, 3]), "sched": sched}
+        if n and rng.random() < self.p_block:
+            # the handler of event `at` is blocked until the exit of handle_events has been attempted for BLOCK_SECONDS: half of the
+            # time before the first failing event (the failure happens after the block)
+            at = rng.randrange(fails[0]) if fails and fails[0] > 0 and rng.random() < 0.5 else rng.randrange(n)
+            case["block"] = {"at": at}
+            case["sched"] = [k if j < at else 0 for j, k in enumerate(sched)]     # model side: the handler thread does not get past `at`
+        return case
 
     def impl(self, case):
         from lemoncheesecake import events as E
         n, fails = case["n"], set(case["fails"])
+        with scaled_time() as tlog:
+            return self._impl(case, E, tlog)
+
+    def _impl(self, case, E, tlog):
+        n, fails = case["n"], set(case["fails"])
+        block_at = (case.get("block") or {}).get("at")
+        closing, release = threading.Event(), threading.Event()
         em = E.AsyncEventManager.load()
         handled = []
 
         def handler(event):
             handled.append(event.idx)
+            if event.idx == block_at:
+                state["blocked"] = True
+                closing.wait(self.watchdog)             # ... until the exit of handle_events is attempted
+                release.wait(BLOCK_SECONDS)             # ... and has been waiting for BLOCK_SECONDS (or has returned)
             if event.idx in fails:
                 raise RuntimeError(BOOM % event.idx)
         em.subscribe_to_event(E.TestSessionSetupStartEvent, handler)
-        state = {"fired": 0, "closed": False, "maxsize": None, "error": None}
+        state = {"fired": 0, "closed": False, "maxsize": None, "error": None, "blocked": False, "at_close": None}
         turn = threading.Condition()
         nprod = case["producers"]
 
@@ -90,14 +203,28 @@ class EMStream(C.Stream):
                         t.start()
                     for t in ths:
                         t.join()
+                    closing.set()
+                # what the caller of handle_events finds when it returns
+                exc0 = em.get_pending_failure()[0]
+                state["at_close"] = {"handled": list(handled), "pending_raw": None if exc0 is None else str(exc0),
+                                     "threads_alive": sum(1 for t in tlog["threads"] if t.is_alive()),
+                                     "daemon": [t.daemon_requested for t in tlog["threads"]]}
                 state["closed"] = True
             except BaseException as e:      # classified, not propagated
                 state["error"] = "%s: %s" % (type(e).__name__, e)
+            finally:
+                closing.set()
+                release.set()
         th = threading.Thread(target=body, daemon=True)
         t0 = time.time()
         th.start()
         th.join(self.watchdog)
         hang = th.is_alive()
+        if hang:
+            closing.set()
+            release.set()
+        for t in list(tlog["threads"]):         # a handler thread left behind by the exit gets the time to finish what it does
+            threading.Thread.join(t, 2.0)
         exc, text = em.get_pending_failure()
         pending = None
         if exc is not None:
@@ -107,7 +234,10 @@ class EMStream(C.Stream):
         return {"hang": hang, "fired": state["fired"], "closed": state["closed"], "error": state["error"],
                 "handled": list(handled), "pending": pending, "pending_raw": None if exc is None else str(exc),
                 "text_ok": exc is None or (pending is not None and (BOOM % pending) in (text or "")),
-                "maxsize": state["maxsize"], "wall": round(time.time() - t0, 2)}
+                "maxsize": state["maxsize"], "wall": round(time.time() - t0, 2),
+                "blocked": state["blocked"], "at_close": state["at_close"],
+                "join_timeouts": [None if t is None else float(t) for t in tlog["joins"]],
+                "queue_timeouts": [float(t) for t in tlog["queue_timeouts"]]}
 
     def oracle(self, case, obs):
         out = []
@@ -131,10 +261,27 @@ class EMStream(C.Stream):
                                      % [i for i in obs["handled"] if i > first][:5]))
         elif obs["pending_raw"] is not None:
             out.append(C.Failure("C11/spurious-pending-failure", obs["pending_raw"]))
+        # ---- at the moment handle_events returned (nothing is silently lost, whatever the time the handlers take) ----
+        ac = obs.get("at_close")
+        if ac is not None:
+            blk = " (the handler of event %d was blocked while the exit was attempted)" % case["block"]["at"] if case.get("block") else ""
+            missing = [i for i in range(obs["fired"]) if i not in set(ac["handled"])]
+            if missing and ac["pending_raw"] is None:
+                out.append(C.Failure("C11/events-lost-after-close", "handle_events returned with %d of %d fired events not handled (first: %s) "
+                                     "and no pending failure%s" % (len(missing), obs["fired"], missing[:3], blk)))
+            if fails and ac["pending_raw"] != BOOM % fails[0]:
+                out.append(C.Failure("C11/failure-not-reported", "handle_events returned, the pending failure the caller reads is %r although the handler "
+                                     "of event %d raises%s" % (ac["pending_raw"], fails[0], blk)))
+            if ac["threads_alive"]:
+                out.append(C.Failure("C11/handler-thread-alive-after-close", "%d event-handling thread(s) still alive when handle_events returned "
+                                     "(daemon: %s)%s" % (ac["threads_alive"], ac["daemon"], blk)))
+            if obs["handled"] != ac["handled"]:
+                out.append(C.Failure("C11/handled-after-close", "%d event(s) were handled after handle_events had returned"
+                                     % (len(obs["handled"]) - len(ac["handled"]))))
         return out
 
     def request(self, case, obs):
-        return {"cap": obs["maxsize"] or 0, "n": case["n"], "fails": case["fails"], "sched": case["sched"]}
+        return {"cap": obs["maxsize"] or 0, "n": case["n"], "fails": case["fails"], "sched": case["sched"], "join_limit": None}
 
     def compare(self, case, obs, ans):
         if "error" in ans:
@@ -148,6 +295,18 @@ class EMStream(C.Stream):
             return "handled differ: model %s… impl %s…" % (ans["handled"][-5:], obs["handled"][-5:])
         if ans["pending"] != obs["pending"]:
             return "pending failure differs: model %r impl %r" % (ans["pending"], obs["pending"])
+        if any(t is not None for t in obs.get("join_timeouts") or []) or obs.get("queue_timeouts"):
+            return ("handle_events waits with a wall-clock limit (join timeouts %r, queue timeouts %r): the model's exit is the unlimited one "
+                    "(EM.closeWithin none)" % (obs.get("join_timeouts"), obs.get("queue_timeouts")))
+        ac = obs.get("at_close")
+        if ac is not None:
+            if ans["handled"] != ac["handled"]:
+                return "handled when handle_events returned differ: model %s… impl %s…" % (ans["handled"][-5:], ac["handled"][-5:])
+            mp = None if ans["pending"] is None else BOOM % ans["pending"]
+            if mp != ac["pending_raw"]:
+                return "pending failure when handle_events returned differs: model %r impl %r" % (mp, ac["pending_raw"])
+            if ans.get("thread_ended") != (ac["threads_alive"] == 0):
+                return "handler thread ended: model %r, impl alive threads %d" % (ans.get("thread_ended"), ac["threads_alive"])
         return None
 
     def nontrivial(self, case, obs):
@@ -160,6 +319,14 @@ class EMStream(C.Stream):
         if fails:
             after = n - 1 - fails[0]
             f.append("events-after-failure=%s" % ("0" if after == 0 else "1-100" if after <= 100 else "101-1000" if after <= 1000 else ">1000"))
+        if case.get("block"):
+            f.append("handler-blocked-at-exit" if obs.get("blocked") else "block-not-reached")
+            if obs.get("blocked"):
+                f.append("blocked-handler+" + ("failure-after-the-block" if fails and fails[0] >= case["block"]["at"] else
+                                               "failure-before-the-block" if fails else "no-failure"))
+        ac = obs.get("at_close") or {}
+        if ac.get("daemon"):
+            f.append("handler-thread-daemon-requested=%s" % ac["daemon"][0])
         return f
 
     def shrink(self, case):
@@ -167,6 +334,10 @@ class EMStream(C.Stream):
         for m in (n // 2, n - 1):
             if 0 <= m < n:
                 yield dict(case, n=m, fails=[i for i in case["fails"] if i < m], sched=case["sched"][:m])
+        if case.get("block"):
+            b = case["block"]["at"]
+            if b > 0:
+                yield dict(case, block={"at": b // 2}, sched=[k if j < b // 2 else 0 for j, k in enumerate(case["sched"])])
         if case["producers"] > 1:
             yield dict(case, producers=1)
         for i in range(len(case["fails"])):
